@@ -23,7 +23,9 @@ QUICK_BUDGET_S = 80
 THOROUGH_BUDGET_S = 900
 RULE = ("maps / map sets of all five games and the base classes (0-3 maps, every list 0-6 rows incl. all-empty lists, "
         "shuffled row labels and column order, file-level fields; lists built float-typed or integer-typed: int64 frames, items from "
-        "Python ints, from_dict with ints, Quaver charts re-read from a .qua document), rate r > 0 from the exact stream (p/2^k with all times "
+        "Python ints, from_dict with ints, Quaver charts re-read from a .qua document; 60 % of the charts reach the final rate through "
+        "a history on the same object: m.stack() / an earlier rate, then list-property edits (`m.hits.offset += d`, `m.bpms.bpm = ...`) or "
+        "replacement by a list with as many rows; the chart is snapshotted right before the final rate), rate r > 0 from the exact stream (p/2^k with all times "
         "multiples of p: every double operation exact, equality required) or arbitrary positive doubles (2^-40 tolerance); "
         "claims scale / one / comp / writeread; non-trivial = r != 1 and at least one non-empty list with a time in it")
 ASSUMPTIONS = [
@@ -250,8 +252,41 @@ def gen_set(rng, stream, mult, game, level):
     return s
 
 
+def gen_history(rng, stream, mult, game, level, s):
+    """what happened to the chart before it is rated: a stacker was taken (`m.stack()`), the chart is itself the result
+    of an earlier `rate`, and — after that — lists were edited through their properties or replaced by lists with as
+    many rows.  The chart is snapshotted after the history, right before the final `rate`."""
+    h = []
+    if not s["maps"]:
+        return h
+    c = rng.random()
+    if c < 0.45:
+        return h
+    if c < 0.8:
+        h.append(dict(op="stack", read=rng.random() < 0.5))
+    else:
+        r0, _ = gen_rate(rng, stream)
+        h.append(dict(op="rate", r=R(r0)))
+    names = [n for n, _, _, _ in SCHEMA[game][2]]
+    for _ in range(rng.choice([1, 1, 2, 3])):
+        mi = rng.randrange(len(s["maps"]))
+        name = rng.choice(names + ["hits", "bpms", "holds"])
+        k = rng.random()
+        if k < 0.4:
+            h.append(dict(op="shift", map=mi, list=name, col="offset", by=R(Fr(mult * rng.choice([160, -40, 1000, 7])))))
+        elif k < 0.6:
+            h.append(dict(op="mul", map=mi, list=name, col=rng.choice(["bpm", "length", "offset"]), by=R(Fr(rng.choice([2, 3, 1]) , rng.choice([1, 2])))))
+        else:
+            h.append(dict(op="replace", map=mi, list=name, by=R(Fr(mult * rng.choice([160, 16, -8])))))
+    if rng.random() < 0.2:
+        h.append(dict(op="stack", read=True))
+    return h
+
+
 def gen(rng, tier, i):
     case = _gen(rng, tier, i)
+    if case["claim"] != "writeread" and rng.random() < 0.6:
+        case["history"] = gen_history(rng, case["stream"], 1, case["game"], case["level"], case["set"])
     if case.get("stream") == "E":
         rs = [case["r"]] if case["claim"] in ("scale", "one") else [case["a"], case["b"]]
         if not _on_e_stream(case, rs):
@@ -740,6 +775,42 @@ def shares_nothing(game, level, a, b):
     return True
 
 
+def apply_history(game, level, obj, history):
+    """runs the steps on the real objects; returns the object to be rated"""
+    import warnings
+    with warnings.catch_warnings():
+        warnings.simplefilter("ignore")
+        for st in history or []:
+            maps = [obj] if level == "map" else list(obj.maps)
+            if st["op"] == "stack":
+                for m in maps:
+                    stk = m.stack()
+                    if st.get("read") and len(stk._stacked):
+                        stk.offset.min()
+                if level == "set":
+                    obj.stack()
+            elif st["op"] == "rate":
+                obj = obj.rate(float(F(st["r"])))
+            else:
+                if st["map"] >= len(maps):
+                    continue
+                m = maps[st["map"]]
+                lst = m.objs.get(st["list"])
+                if lst is None:
+                    continue
+                by = float(F(st["by"]))
+                if st["op"] == "shift":
+                    lst.offset += by                    # `m.hits.offset += 160`
+                elif st["op"] == "mul":
+                    if st["col"] in lst.df.columns:
+                        setattr(lst, st["col"], getattr(lst, st["col"]) * by)      # `m.bpms.bpm = ...`
+                elif st["op"] == "replace":
+                    df = lst.df.copy()
+                    df["offset"] = df["offset"] + by
+                    setattr(m, st["list"], type(lst)(df))   # `m.hits = <list with as many rows>`
+    return obj
+
+
 def impl_rate(game, level, obj, rates):
     """-> ("ok", result object) | ("err", class)"""
     import warnings
@@ -795,7 +866,8 @@ def run_rate(case, drv):
     claim, game, level, stream = case["claim"], case["game"], case["level"], case["stream"]
     kind = kind_of(game, level)
     obj = build_set(game, level, case["set"])
-    before = snap_set(game, level, obj)
+    obj = apply_history(game, level, obj, case.get("history"))
+    before = snap_set(game, level, obj)          # the chart right before the final rate: what everything is judged against
     if claim == "comp":
         a, b = F(case["a"]), F(case["b"])
         ab = Fr(float(a) * float(b))           # the double the one-step call receives
@@ -804,14 +876,18 @@ def run_rate(case, drv):
         routes = dict(one=[F(case["r"])])
     impl = {k: impl_rate(game, level, obj, v) for k, v in routes.items()}
     after = snap_set(game, level, obj)
-    if stream == "E" and case["set"].get("via_file"):
-        # the chart was re-read from a file: judge exactness on what is really in memory
+    if stream == "E" and (case["set"].get("via_file") or case.get("history")):
+        # the chart was re-read from a file / went through a history: judge exactness on what is really in memory
         rs_ = [case["r"]] if claim in ("scale", "one") else [case["a"], case["b"]]
         if not _on_e_stream(dict(set=before), rs_):
             stream = "T"
     tags = [game, level, stream, kind]
     if case["set"].get("via_file"):
         tags.append("via-file")
+    for st in case.get("history") or []:
+        t = "hist-" + st["op"]
+        if t not in tags:
+            tags.append(t)
     if any(f.get("typing") for m in case["set"]["maps"] for _, f in m["lists"]):
         tags.append("int-typed")
     eps = R(0) if stream == "E" else R(EPS_T)
